@@ -1318,6 +1318,11 @@ class Engine:
                         if isinstance(z, bool):
                             return z if op == '==' else not z
                         return z3.simplify(z if op == '==' else z3.Not(z))
+        if op == '^' and (hasattr(a, 'mapaff') or hasattr(b, 'mapaff')) and isinstance(a, int) + isinstance(b, int) + hasattr(a, 'mapaff') + hasattr(b, 'mapaff') == 2:
+            # GF(2)-affine byte forms (asmsym.Aff) stay affine under xor (Go glue that xors key stream and data itself)
+            import asmsym
+            w = a.w if hasattr(a, 'mapaff') else b.w
+            return asmsym.aff_xor(a, b, w)
         a = force(a)
         b = force(b)
         # pointers / interfaces / slices compare with nil
